@@ -120,24 +120,6 @@ def getTo : Option PVal → Json
   | none => .str "absent"
   | some v => pvalTo v
 
-structure CState where
-  store : Store
-  orig : List (Nat × List (Nat × PVal))     -- manager -> original_params (latest first)
-  calls : List Json
-
-def cstep (mgrs : List (List (Nat × PVal))) (st : CState) (ta : Nat × Act) : CState :=
-  let alt := mgrs.getD ta.1 []
-  match ta.2 with
-  | .enter =>
-    let r := enter alt st.store
-    { st with store := r.1, orig := (ta.1, r.2) :: st.orig }
-  | .call =>
-    { st with calls := st.calls ++ [Json.arr #[Json.num (JsonNumber.fromNat ta.1),
-        Json.arr (alt.map fun p => Json.arr #[Json.num (JsonNumber.fromNat p.1), getTo (st.store.get p.1)]).toArray]] }
-  | .exit =>
-    let o := ((st.orig.find? (·.1 == ta.1)).map (·.2)).getD []
-    { st with store := exit o st.store }
-
 def handle (op : String) (j : Json) : Except String Json := do
   match op with
   | "key" =>
@@ -174,21 +156,23 @@ def handle (op : String) (j : Json) : Except String Json := do
     let unia ← (← j.getObjVal? "universe").getArr?
     let uni ← unia.toList.mapM (·.getNat?)
     let σ0 : Store := { attr := tableFn attrs, kw := kw.map tableFn }
-    let fin := sched.foldl (cstep mgrs) { store := σ0, orig := [], calls := [] }
-    -- abstract system on the same schedule (meaningful when every parameter exists on the object)
+    -- the concrete system of the model (Params.cstep = LLMParams.__enter__/__exit__ on one shared object)
     let tasks : Nat → List (Nat × PVal) := fun t => mgrs.getD t []
+    let fin := runSchedC tasks (initC σ0) sched
+    -- abstract system on the same schedule (meaningful when every parameter exists on the object)
     let a0 : Nat → PVal := fun n => (σ0.get n).getD none
     let afin := runSched tasks (init a0) sched
+    let callsTo (cs : List (Nat × List (Nat × PVal))) := Json.arr (cs.map fun c => Json.arr #[Json.num (JsonNumber.fromNat c.1),
+          Json.arr (c.2.map fun p => Json.arr #[Json.num (JsonNumber.fromNat p.1), pvalTo p.2]).toArray]).toArray
     let dumpStore (f : Nat → Json) := Json.arr (uni.map fun n => Json.arr #[Json.num (JsonNumber.fromNat n), f n]).toArray
     pure (Json.mkObj [
-      ("calls", Json.arr fin.calls.toArray),
+      ("calls", callsTo fin.calls),
       ("attr", dumpStore fun n => getTo (fin.store.attr n)),
       ("kw", match fin.store.kw with
         | none => .null
         | some k => dumpStore fun n => getTo (k n)),
       ("nested", .bool (nestedOK [] sched)),
-      ("abs_calls", Json.arr (afin.calls.map fun c => Json.arr #[Json.num (JsonNumber.fromNat c.1),
-          Json.arr (c.2.map fun p => Json.arr #[Json.num (JsonNumber.fromNat p.1), pvalTo p.2]).toArray]).toArray),
+      ("abs_calls", callsTo afin.calls),
       ("abs_store", dumpStore fun n => pvalTo (afin.store n))])
   | _ => throw s!"unknown op C15.{op}"
 
